@@ -8,7 +8,7 @@ place=$(head -3 $o/demo_$k.rs | grep -o "integration_tests/tests/[A-Za-z0-9_]*\.
 [ -z "$place" ] && place=integration_tests/tests/demo_$k.rs
 name=$(basename $place .rs)
 case $place in integration_tests/*) pkg=integration_tests;; *) pkg=palette;; esac
-feat=$(head -3 $o/demo_$k.rs | grep -o -- '--features "[^"]*"\|--features [a-z_,]*' | head -1)
+feat=$(head -3 $o/demo_$k.rs | grep -o -- '--features "[^"]*"\|--features [a-z0-9_,]*' | head -1)
 mkdir -p $(dirname $place); cp $o/demo_$k.rs $place
 # unchanged tree: demo passes
 eval cargo test --offline -p $pkg --test $name $feat > $o/confirm_${k}_clean.log 2>&1; rc_clean=$?
